@@ -182,7 +182,7 @@ type Config struct {
 	Workers  int
 	Deadline time.Time // zero => none
 	// RevalidateEvery: one in N new states has its path re-executed on a
-	// fresh chain instance (0 => 997).
+	// fresh chain instance (0 => 199).
 	RevalidateEvery int
 	MaxViolations   int
 }
@@ -287,7 +287,7 @@ func Run(sc *Scenario, seed Seed, cfg Config) (*Stats, []Found) {
 		cfg.Workers = runtime.NumCPU()
 	}
 	if cfg.RevalidateEvery <= 0 {
-		cfg.RevalidateEvery = 997
+		cfg.RevalidateEvery = 199
 	}
 	if cfg.MaxViolations <= 0 {
 		cfg.MaxViolations = 50
